@@ -72,3 +72,38 @@ G1_shapes = (transforms2d('LineSegment2D', SEG2) + transforms2d('Ray2D', RAY2)
              + transforms2d('Arc2D', ARC2) + transforms3d('Arc3D', ARC3))
 
 LAYERS = [('G0_vec', G0_vec), ('G1_shapes', G1_shapes)]
+
+
+def both2(name, extra_first=None):
+    """instantiate a 2D intersection function for segment and ray operands"""
+    out = []
+    for (na, ta) in (('seg', SEG2), ('ray', RAY2)):
+        out.append((na, ta))
+    return out
+
+
+G2_inter = []
+for na, ta in (('seg', SEG2), ('ray', RAY2)):
+    for nb, tb in (('seg', SEG2), ('ray', RAY2)):
+        G2_inter.append(r('intersection2d:intersect_line2d', [ta, tb], name='intersect_line2d_%s_%s' % (na, nb)))
+        G2_inter.append(r('intersection2d:does_intersection_exist_line2d', [ta, tb], name='does_intersection_exist_line2d_%s_%s' % (na, nb)))
+    G2_inter.append(r('intersection2d:intersect_line2d_infinite', [ta, RAY2], name='intersect_line2d_infinite_%s' % na))
+    G2_inter.append(r('intersection2d:closest_point2d_on_line2d', [P2, ta], name='closest_point2d_on_line2d_%s' % na))
+    G2_inter.append(r('intersection2d:closest_point2d_on_line2d_infinite', [P2, ta], name='closest_point2d_on_line2d_infinite_%s' % na))
+G2_inter.append(r('intersection2d:intersect_line_segment2d', [SEG2, SEG2], name='intersect_line_segment2d'))
+G2_inter.append(r('intersection2d:_isclose', [Q, Q], name='isclose'))
+for na, ta in (('seg', SEG3), ('ray', RAY3)):
+    G2_inter.append(r('intersection3d:intersect_line3d_plane', [ta, PLANE], name='intersect_line3d_plane_%s' % na))
+    G2_inter.append(r('intersection3d:intersect_line3d_plane_infinite', [ta, PLANE], name='intersect_line3d_plane_infinite_%s' % na))
+    G2_inter.append(r('intersection3d:closest_point3d_on_line3d', [P3, ta], name='closest_point3d_on_line3d_%s' % na))
+    G2_inter.append(r('intersection3d:closest_point3d_on_line3d_infinite', [P3, ta], name='closest_point3d_on_line3d_infinite_%s' % na))
+    G2_inter.append(r('intersection3d:closest_point3d_between_line3d_plane', [ta, PLANE], name='closest_point3d_between_line3d_plane_%s' % na))
+    G2_inter.append(r('intersection3d:intersect_line3d_sphere', [ta, SPH], name='intersect_line3d_sphere_%s' % na))
+G2_inter += [
+    r('intersection3d:intersect_plane_plane', [PLANE, PLANE], name='intersect_plane_plane'),
+    r('intersection3d:closest_point3d_on_plane', [P3, PLANE], name='closest_point3d_on_plane'),
+    r('intersection3d:intersect_plane_sphere', [PLANE, SPH], name='intersect_plane_sphere'),
+    r('Plane.is_point_above', [PLANE, P3]),
+    r('Plane.project_point', [PLANE, P3], name='Plane_project_point'),
+]
+LAYERS.append(('G2_inter', G2_inter))
